@@ -269,7 +269,8 @@ def main():
                 "whitespace-token lemma": ("Tokens.lean", ["token_split_unique", "tokens_unique"]),
                 "prim cut-property": ("Prim.lean", ["prim_tree_is_minimum", "prim_tree_connected", "prim_tree_weight_eq", "prim_tree_total_is_least"]),
                 "functional-cycle lemmas": ("FunctionalCycle.lean", ["conn_rec_iff", "closing_edge_gives_cycle", "cycle_gives_closing_edge", "functional_cycle"]),
-                "component lemmas": ("Components.lean", ["const_on_components", "labels_iff_connected", "all_connected_iff", "separated_not_connected", "fixpoint_labels_edges"])}
+                "component lemmas": ("Components.lean", ["const_on_components", "labels_iff_connected", "all_connected_iff", "separated_not_connected", "fixpoint_labels_edges"]),
+                "counting lemma": ("Count.lean", ["count_skips", "count_counts"])}
     used_files = {}
     for a_ in assumptions:
         if a_.startswith("assumed-lemma:"):
